@@ -148,7 +148,6 @@ def gen_instance(rng, *, ssm, q, d, k, nsteps, cal, lin=None, exact=None, initc=
     return inst
 
 
-TLA_KEYS = ("q", "d", "k", "nsteps", "t0", "h", "eps", "damp", "lam", "lin", "cal", "percal", "initc", "m0")
 
 
 def tla_instance(inst, laws=True):
@@ -286,6 +285,38 @@ def _rel(a, b):
     return float(np.max(np.abs(a - b)) / max(1.0, float(np.max(np.abs(b))))) if a.size else 0.0
 
 
+
+def dynamic_tolerance(scn, ref, grid, per_dim):
+    """The dynamic scale is |z| / sqrt(S d) with z = mp_k - f(mp) formed by cancellation: its relative condition number with
+    respect to the filtering mean is kappa = (|mp_k| + |f|) / |z|, which is large exactly when the solver is accurate (small
+    residual; kappa ~ 1e6 for q = 4 on smooth problems).  Two correct implementations whose means differ by accumulated rounding
+    (taken as 1000 units in the last place, 1.1e-13) agree on scale^2, and on everything computed from it, only to about
+    kappa * 1.1e-13; that is the tolerance argued for the dynamic modes (never below 1e-9)."""
+    import math
+
+    q, d, k = scn["q"], scn["d"], scn["k"]
+    n = q + 1
+    if grid is None:
+        grid = [float(scn["t0"]) + j * float(scn["h"]) for j in range(scn["nsteps"] + 1)]
+    par = {key: np.asarray(v) for key, v in _par(scn).items()}
+    vf = _vf(k, par)
+    kappa = 1.0
+    means = np.asarray(ref["means"])
+    for j in range(1, len(grid)):
+        h = grid[j] - grid[j - 1]
+        A = np.array([[h ** (b - a) / math.factorial(b - a) if b >= a else 0.0 for b in range(n)] for a in range(n)])
+        mp = A @ means[j - 1].reshape(n, d)
+        f = np.asarray(vf(*[mp[i] for i in range(k)], t=grid[j]), dtype=np.float64)
+        z = mp[k] - f
+        mag = np.abs(mp[k]) + np.abs(f)
+        with np.errstate(divide="ignore", invalid="ignore"):
+            kj = np.max(mag / np.abs(z)) if per_dim else math.sqrt(d) * np.max(mag) / np.linalg.norm(z)
+        if not np.isfinite(kj):
+            return float("inf")
+        kappa = max(kappa, float(kj))
+    return kappa * 1000.0 * 2.0**-53
+
+
 def check_relational(scn, tol=TOL):
     """factorisation agreement on one scenario (instance fields + 'grid', 'strategy', 'kind'); -> [(what, detail)]"""
     kind, cal, strategy, grid = scn["kind"], scn["cal"], scn["strategy"], scn.get("grid")
@@ -293,15 +324,24 @@ def check_relational(scn, tol=TOL):
     d, q = scn["d"], scn["q"]
     bad = []
     keys = ["means", "covs"] + (["sm_means", "sm_covs"] if strategy == "fixedinterval" else [])
+    T = {"tol": tol}
+    dyn = cal in ("dynamic", "dynamic_relin")
 
     def run(ssm, lin, inst=scn):
         return run_real(inst, ssm, strategy, nsteps=nsteps, lin=lin, grid=grid)
 
+    def ok(e):
+        return e <= T["tol"]
+
     def same(tag, A, B, ks):
         for k in ks:
             e = _rel(A[k], B[k])
-            if not e <= tol:
-                bad.append((f"{tag}:{k}", f"relerr={e:.3e}"))
+            if not ok(e):
+                bad.append((f"{tag}:{k}", f"relerr={e:.3e} tol={T['tol']:.1e}"))
+
+    def set_tolerance(ref, per_dim):
+        if dyn:
+            T["tol"] = max(tol, dynamic_tolerance(scn, ref, grid, per_dim))
 
     def degenerate(out):
         # a dynamic scale of (numerically) zero: zero residual, singular predicted covariance, 0/0 in every factorisation alike
@@ -311,9 +351,10 @@ def check_relational(scn, tol=TOL):
         D, I, B = run("dense", "ts0"), run("iso", "ts0"), run("bd", "ts0")
         if degenerate(D):
             return [("@@degenerate", "zero dynamic scale")]
+        set_tolerance(D, False)
         same("ts0:dense==iso", I, D, keys)
         e = _rel(scale2_steps(I, scn), scale2_steps(D, scn))
-        if not e <= tol:
+        if not ok(e):
             bad.append(("ts0:dense==iso:output_scale", f"relerr={e:.3e}"))
         if cal in ("none", "mle", "mle_nocorr"):
             same("ts0:bd==dense", B, D, [k for k in keys if k.endswith("means")])
@@ -322,7 +363,7 @@ def check_relational(scn, tol=TOL):
         if cal in ("mle", "mle_nocorr"):
             sb, sd = scale2_steps(B, scn), scale2_steps(D, scn)
             e = _rel(np.sum(sb, axis=1), d * sd[:, 0])
-            if not e <= tol:
+            if not ok(e):
                 bad.append(("ts0:bd.mle_scale==split(dense)", f"sum_a s_a^2={np.sum(sb, axis=1)[-1]:.12g} d*s^2={d * sd[-1, 0]:.12g} relerr={e:.3e}"))
             # the calibrated covariances are then the per-dimension rescaling of the same uncalibrated ones
             for k in [k for k in keys if k.endswith("covs")]:
@@ -333,12 +374,13 @@ def check_relational(scn, tol=TOL):
                     if not (sb[-1, a] > 0 and sd[-1, 0] > 0):
                         continue
                     e = _rel(cb[:, :, a, :, a] / sb[-1, a], cd[:, :, a, :, a] / sd[-1, 0])
-                    if not e <= tol:
+                    if not ok(e):
                         bad.append((f"ts0:bd.cov/s_a^2==dense.cov/s^2:{k}", f"relerr={e:.3e}"))
     elif kind == "decoupled":  # TS1: block-diagonal == independent scalar dense solves
         B = run("bd", "ts1_blockdiag")
         if degenerate(B):
             return [("@@degenerate", "zero dynamic scale")]
+        set_tolerance(B, True)
         n = q + 1
         sb = scale2_steps(B, scn)
         for a in range(d):
@@ -348,18 +390,19 @@ def check_relational(scn, tol=TOL):
                 got = B[k].reshape((B[k].shape[0], n, d) + ((n, d) if k.endswith("covs") else ()))
                 got = got[:, :, a, :, a] if k.endswith("covs") else got[:, :, a]
                 e = _rel(got, S[k])
-                if not e <= tol:
+                if not ok(e):
                     bad.append((f"ts1:bd[dim]==scalar_dense:{k}", f"dimension {a} relerr={e:.3e}"))
             e = _rel(sb[:, a], scale2_steps(S, sub)[:, 0])
-            if not e <= tol:
+            if not ok(e):
                 bad.append(("ts1:bd[dim]==scalar_dense:output_scale", f"dimension {a} relerr={e:.3e}"))
     elif kind == "scalarjac":  # TS1, Jacobian = multiple of the identity: isotropic == dense
         D, I = run("dense", "ts1_dense"), run("iso", "ts1_isotropic")
         if degenerate(D):
             return [("@@degenerate", "zero dynamic scale")]
+        set_tolerance(D, False)
         same("ts1:iso==dense", I, D, keys)
         e = _rel(scale2_steps(I, scn), scale2_steps(D, scn))
-        if not e <= tol:
+        if not ok(e):
             bad.append(("ts1:iso==dense:output_scale", f"relerr={e:.3e}"))
     else:
         raise ValueError(kind)
